@@ -166,4 +166,25 @@ MUTATIONS = [
     {'id': 'c07-touching-overlap', 'props': ['C07'], 'tests': 'tests/test_info.py',
      'desc': 'exactly touching slots are reported as overlapping',
      'edits': [('gnpy/core/info.py', "self._slot_width[:-1] / 2 > self._frequency[1:]", "self._slot_width[:-1] / 2 >= self._frequency[1:]")]},
+    {'id': 'c08-inline-skip-short-next', 'props': ['C08'], 'tests': 'tests/test_network_functions.py',
+     'desc': 'no inline amplifier inserted in front of a fibre shorter than 1 km',
+     'edits': [('gnpy/core/network.py', "    if isinstance(next_node, elements.Fiber) or isinstance(next_node, elements.RamanFiber):\n        # no amplification for fused spans or TRX",
+                "    if (isinstance(next_node, elements.Fiber) or isinstance(next_node, elements.RamanFiber)) \\\n            and next_node.params.length > 1000:\n        # no amplification for fused spans or TRX")]},
+    {'id': 'c08-split-rounds-km', 'props': ['C08'], 'tests': 'tests/test_network_functions.py tests/test_parser.py',
+     'desc': 'split spans get a length rounded to the kilometre',
+     'edits': [('gnpy/core/network.py', "    fiber.params.length = new_length\n", "    fiber.params.length = round(new_length, -3)\n")]},
+    {'id': 'c08-padding-off-by-one', 'props': ['C08'], 'tests': 'tests/test_network_functions.py',
+     'desc': 'padding only added when the span is more than 1 dB short',
+     'edits': [('gnpy/core/network.py', "        if this_span_loss < padding:\n", "        if this_span_loss < padding - 1:\n")]},
+    {'id': 'c08-no-preamp-after-raman', 'props': ['C08'], 'tests': 'tests/test_network_functions.py',
+     'desc': 'no ROADM preamp inserted after a Raman fibre',
+     'edits': [('gnpy/core/network.py', """    prev_nodes = [n for n in network.predecessors(roadm)
+                  if not isinstance(n, (elements.Transceiver, elements.Fused, elements.Edfa,
+                                        elements.Multiband_amplifier))]""", """    prev_nodes = [n for n in network.predecessors(roadm)
+                  if not isinstance(n, (elements.Transceiver, elements.Fused, elements.Edfa,
+                                        elements.Multiband_amplifier, elements.RamanFiber))]""")]},
+    {'id': 'c08-gain-mode-voa-none', 'props': ['C08'], 'tests': 'tests/test_gain_mode.py',
+     'desc': 'output VOA left unset in gain mode',
+     'edits': [('gnpy/core/network.py', "            voa = 0  # no output voa optimization in gain mode\n        amp.out_voa = voa",
+                "            voa = None  # no output voa optimization in gain mode\n        amp.out_voa = voa")]},
 ]
